@@ -6,7 +6,9 @@ observable is, after every operation: the builtin storage (dict items / list ite
 `named_children()` as (key, identity class, value class, is-node), the returned node or the
 exception class, the plain instance attributes, and the order in which the container evaluates.
 The model observable is the same thing computed by `AY.Container.trace` (driver op "c17").
-The oracle looks at the implementation alone."""
+The oracle looks at the implementation alone: the two views, the evaluation order, and (refinement) the
+builtin storage and the outcome of every operation against the plain `list` / `dict` specification
+`AY.Builtin.specTrace` (driver op "c17spec"); a real `list` / `dict` run validates that specification."""
 import json
 from common import *          # first: puts /repo's working tree on sys.path and checks the import
 from framework import Prop
@@ -293,6 +295,156 @@ def renumber_model(ans):
     return out
 
 # ------------------------------------------------------------------------------------------------
+# refinement: the builtin specification (driver op "c17spec"), and a real list / dict as third opinion
+# ------------------------------------------------------------------------------------------------
+
+RESERVED = frozenset(dir(ConfigDict))
+
+def spec_ops(case):
+    """the history a plain dict can be asked to repeat: the stores that ConfigDict refuses (a key that names a
+    method/attribute of the class: the one deviation, C17_shadowing_key_deviates) are left out, an `update` is cut
+    before the first refused key.  Returns [(index into case['ops'], op)] and {index: 'drop' | 'cut'}."""
+    if case['kind'] != 'dict':
+        return list(enumerate(case['ops'])), {}
+    kept, refused = [], {}
+    for i, op in enumerate(case['ops']):
+        o = op['o']
+        if o in ('setItem', 'setChild', 'setdefault') and op['k'] in RESERVED:
+            refused[i] = 'drop'
+        elif o == 'setAttr' and not op['n'].startswith('_') and op['n'] in RESERVED:
+            refused[i] = 'drop'
+        elif o == 'update' and any(k in RESERVED for k, _ in op['kvs']):
+            j = [k in RESERVED for k, _ in op['kvs']].index(True)
+            refused[i] = 'cut'
+            kept.append((i, dict(op, kvs=op['kvs'][:j])))
+        else:
+            kept.append((i, op))
+    return kept, refused
+
+def renumber_plain(states):
+    """[{'st': [[key, id, eq]…], 'attrs': […], 'out'?: {'ok': None | [id, eq]} | {'exc': name}}…] with the ids replaced
+    by identity classes in order of first appearance (a state's entries first, then the returned object)"""
+    ids = {}
+    def tok(i):
+        return ids.setdefault(i, len(ids))
+    out = []
+    for s in states:
+        o = {'st': [[k, tok(i), e] for k, i, e in s['st']], 'attrs': s['attrs']}
+        if 'out' in s:
+            r = s['out']
+            o['out'] = {'ok': [tok(r['ok'][0]), r['ok'][1]]} if r.get('ok') is not None else r
+        out.append(o)
+    return out
+
+def impl_plain(io):
+    """the implementation's run as a builtin shows it: the storage view and the outcome, node wrapping forgotten"""
+    def st(s):
+        o = {'st': [e[:3] for e in s['st']], 'attrs': s['attrs']}
+        if 'out' in s:
+            r = s['out']
+            o['out'] = {'ok': r['ok'][:2]} if r.get('ok') is not None else r
+        return o
+    return [st(io['init'])] + [st(s) for s in io['steps']]
+
+class PlainList(list): pass        # a subclass instance has a __dict__, as ConfigList has
+class PlainDict(dict): pass
+
+def builtin_apply(t, op, pool):
+    """the operation on a real list / dict; the five operations that are no builtin methods are the compositions
+    of builtin operations that Spec/Builtin.lean marks (ext)"""
+    o, k = op['o'], op.get('k')
+    val = lambda: resolve_value(t, op['v'], pool)
+    if o == 'setItem': t[k] = val(); return None
+    if o == 'delItem': del t[k]; return None
+    if o == 'clear': t.clear(); return None
+    if o == 'pop': return t.pop(*(([] if k is None else [k]) + ([None] if op.get('d') else [])))
+    if o == 'removeChild': return t.pop(k)
+    if isinstance(t, list):
+        if o == 'setAttr': setattr(t, op['n'], val()); return None
+        if o == 'delAttr': delattr(t, op['n']); return None
+        if o == 'setChild':
+            v = val()
+            j = slice(k, None).indices(len(t))[0]          # clipped as `insert` clips (TypeError for a non-integer)
+            if j == len(t): t.append(v)
+            else: t[j] = v
+            return None
+        if o == 'renameChild': raise TypeError('positions cannot be renamed')
+        if o == 'extend': t.extend([resolve_value(t, v, pool) for v in op['vs']]); return None
+        if o in ('append', 'remove'): getattr(t, o)(val()); return None
+        if o == 'insert': t.insert(k, val()); return None
+        return getattr(t, o)                               # update, setdefault: AttributeError
+    if o == 'setAttr':
+        if op['n'].startswith('_'): setattr(t, op['n'], val())
+        else: t[op['n']] = val()
+        return None
+    if o == 'delAttr':
+        if op['n'].startswith('_'): delattr(t, op['n'])
+        else: del t[op['n']]
+        return None
+    if o == 'setChild': t[k] = val(); return None
+    if o == 'renameChild':
+        if k not in t or op['k2'] in t: raise ValueError('rename')
+        x = t.pop(k); t[op['k2']] = x
+        return x
+    if o == 'update':
+        kvs = [(kk, resolve_value(t, v, pool)) for kk, v in op['kvs']]
+        t.update(dict(kvs)) if op.get('form', 0) == 1 else t.update({}, **dict(kvs)) if op.get('form') == 2 else t.update(kvs)
+        return None
+    if o == 'setdefault': return t.setdefault(k, val())
+    return getattr(t, o)                                   # append, extend, insert, remove: AttributeError
+
+def builtin_run(case, ops):
+    pool = {}
+    plain = build(subtree(case['tree'], case['target']), pool)
+    t = PlainDict(plain) if isinstance(plain, dict) else PlainList(plain)
+    tok, eq = Tokens(), case_eq_table(case)
+    def state():
+        return {'st': [[k, tok.of(v), eq.of(canon_obj(v))] for k, v in storage_view(t)], 'attrs': list(t.__dict__)}
+    out = [state()]
+    for op in ops:
+        ret, exc = None, None
+        try:
+            ret = builtin_apply(t, op, pool)
+        except Exception as e:  # noqa
+            exc = type(e).__name__
+        s = state()
+        s['out'] = {'exc': exc} if exc else {'ok': [tok.of(ret), eq.of(canon_obj(ret))] if op['o'] in RET_OPS and ret is not None else None}
+        out.append(s)
+    return out
+
+def spec_vs_builtin(case, ans):
+    """the specification against CPython's own list / dict (machinery check)"""
+    kept, _ = spec_ops(case)
+    d = first_diff(json.loads(json.dumps(renumber_plain(builtin_run(case, [op for _, op in kept])))),
+                   renumber_plain([ans['init']] + ans['steps']))
+    return ('python list/dict vs builtin specification: ' + d) if d else None
+
+def impl_vs_spec(case, io, ans):
+    """the implementation against the specification, step by step; at a refused store: ValueError, and the
+    contents the specification has (unchanged, or with the pairs before the refused one)"""
+    kept, refused = spec_ops(case)
+    spec = renumber_plain([ans['init']] + ans['steps'])
+    pos = {i: n + 1 for n, (i, _) in enumerate(kept)}          # operation -> row of the specification's run
+    real, want = impl_plain(io), [spec[0]]
+    for i, op in enumerate(case['ops']):
+        if i in refused:
+            out = real[i + 1].pop('out')
+            # `setdefault` on a name that is there already (put there by rename_child) stores nothing and is not refused
+            if out != {'exc': 'ValueError'} and not (op['o'] == 'setdefault' and 'ok' in out):
+                return f'operation #{i + 1} {json.dumps(op)[:80]} stores under the name of a class attribute: ValueError expected, got {out}'
+            base = spec[pos[i]] if refused[i] == 'cut' else want[-1]
+            want.append({k: v for k, v in base.items() if k != 'out'})
+        else:
+            want.append(spec[pos[i]])
+    real = json.loads(json.dumps(renumber_plain(real)))
+    for i, (a, b) in enumerate(zip(real, want)):
+        d = first_diff(a, b)
+        if d:
+            what = 'the constructed container' if i == 0 else f'after operation #{i} {json.dumps(case["ops"][i - 1])[:80]}'
+            return f'not what a plain {case["kind"]} does ({what}): implementation vs builtin specification {d}'
+    return None
+
+# ------------------------------------------------------------------------------------------------
 # generator
 # ------------------------------------------------------------------------------------------------
 
@@ -534,6 +686,9 @@ class C17(Prop):
         'entries are compared by identity class (objects numbered by first appearance), `==`-class of the plain value and is-node flag',
         'the model\'s copy of dir(ConfigDict) is compared with the real one on every run (first corpus case)',
         'operations outside the property\'s list (list +=, *=, sort, reverse, slice assignment; dict |=, popitem) are not exercised',
+        'refinement oracle: the storage view and the outcome of every step are compared with the plain list/dict specification '
+        '(Spec/Builtin.lean); stores under a name of dir(ConfigDict) are the known deviation (ValueError expected, left out of the '
+        'specification\'s run); the specification itself is compared with a real Python list/dict on every case',
     ]
 
     def corpus(self):
@@ -591,6 +746,7 @@ class C17(Prop):
                  'ops': [op_json(op, eq) for op in case['ops']]}]
         reqs += [{'op': 'c17path', 'p': p} for p in case.get('paths', [])]
         reqs += [{'op': 'splitPath', 's': s} for s in case.get('strs', [])]
+        reqs.append(dict(reqs[0], op='c17spec', ops=[op_json(op, eq) for _, op in spec_ops(case)[0]]))
         if case.get('check_reserved'):
             reqs.append({'op': 'c17reserved'})
         return reqs
@@ -603,14 +759,16 @@ class C17(Prop):
         out = renumber_model(answers[0])
         out['paths'] = answers[1:1 + np_]
         out['strs'] = answers[1 + np_:1 + np_ + ns]
+        out['spec'] = answers[1 + np_ + ns]
         if case.get('check_reserved'):
             out['reserved'] = sorted(answers[-1]['ok'])
         return out
 
     def compare(self, case, io, mo):
         io = {k: v for k, v in io.items() if k != 'viol'}
+        spec = mo.pop('spec')
         d = first_diff(json.loads(json.dumps(io)), json.loads(json.dumps(mo)))
-        return ('implementation vs model: ' + d) if d else None
+        return ('implementation vs model: ' + d) if d else spec_vs_builtin(case, spec)
 
     def oracle(self, case, io, ans):
         if io.get('viol'):
@@ -623,7 +781,7 @@ class C17(Prop):
         for p, r in zip(case.get('paths', []), io['paths']):
             if r.get('split') != p:
                 return f'split_path(join_path({p!r})) = {r!r}'
-        return None
+        return impl_vs_spec(case, io, ans[1 + len(case.get('paths', [])) + len(case.get('strs', []))])
 
     def nontrivial(self, case, io):
         prev = io['init']
